@@ -15,7 +15,7 @@ import (
 func init() {
 	register(&Pack{ID: "C02", Run: runC02, Meta: core.Meta{
 		Level:       "other",
-		Explanation: "construct-census: values of the concrete lens type are constructed only in NewLens and NewReflector (who-may-construct over all loaded packages). guard-dominates: on every path of these constructors that returns, the type guard was taken on its true edge; every other path ends in panic (no fall-through return). guard-strength: the guard compares ft = t.StructField.Type of the hseq.Type argument with fv = reflect.TypeOf(new(A)).Elem() for the focus type parameter A and is type identity (ft == fv) or at least String()-equality AND AssignableTo (an ||, a Kind()/Name() comparison, a missing conjunct or another provenance is a violation); identity itself is required by the property and the weaker conjunction is reported (finding D3b unless repaired). container-kind: the construction is dominated by a check that the container type parameter is a struct (finding D2 unless repaired). ptr-taint: in the unfolding function a reflect.Type obtained by stripping a pointer (.Elem()) must not reach the type argument of the offset-accumulating recursive call (finding D1). names-arity: at every attr[0:N] the interval of len(attr) must be within [N,inf) - a reslice up to capacity does not panic (finding D3). lookup-loud: ForName/ForType return only the current range element under the match condition and otherwise panic; ForNameMaybe returns (element,true) or (zero,false). reflector-dyn: in Putt/Gett the unsafe dereference is dominated by the ok edge of the assertion of the argument to *S, the failing edge panics without any store. Panic messages and reflect's own behaviour are not decided. 'Reads and writes stay inside that field' is decided through the rules shared with C01: the address term / effects of the four accessor methods and the offset-accumulation rules of the unfolding function.",
+		Explanation: "construct-census: values of the concrete lens type are constructed only in NewLens and NewReflector (who-may-construct over all loaded packages). guard-dominates: on every path of these constructors that returns, the type guard was taken on its true edge; every other path ends in panic (no fall-through return). guard-strength: the guard compares ft = t.StructField.Type of the hseq.Type argument with fv = reflect.TypeOf(new(A)).Elem() for the focus type parameter A and is type identity (ft == fv) or at least String()-equality AND AssignableTo (an ||, a Kind()/Name() comparison, a missing conjunct or another provenance is a violation); identity itself is required by the property and the weaker conjunction is reported (finding D3b unless repaired). container-kind: the construction is dominated by a check that the container type parameter is a struct (finding D2 unless repaired). ptr-taint: in the unfolding function a reflect.Type obtained by stripping a pointer (.Elem()) must not reach the type argument of the offset-accumulating recursive call (finding D1). names-arity: at every attr[0:N] the interval of len(attr) must be within [N,inf) - a reslice up to capacity does not panic (finding D3). lookup-loud: ForName/ForType return only the current range element under the match condition and otherwise panic; ForNameMaybe returns (element,true) or (zero,false). reflector-dyn: in Putt/Gett the unsafe dereference is dominated by the ok edge of the assertion of the argument to *S, the failing edge panics without any store. Panic messages and reflect's own behaviour are not decided. 'Reads and writes stay inside that field' is decided through the rules shared with C01: the address term / effects of the four accessor methods and the offset-accumulation rules of the unfolding function. construct-census also counts conversions whose target is the lens type and whose source is not the identical instantiation (an optic re-typed without passing the guard); unfold-pure as in C01.",
 		RuleText:    "one obligation per (rule, constructor / call site / lookup function)",
 		TrustedBase: []string{"go/types", "go/ssa", "path engine P", "interval analysis D-iii", "reflect.Type identity semantics"},
 	}})
